@@ -107,7 +107,16 @@ def run_impl(ctx, idx, layers, rng):
     bklr = os.path.join(ctx.bindir, "bklr")
     bkl = os.path.join(ctx.bindir, "bkl")
     r = {"fmts": fmts}
-    rc, out, err = core.cli(bklr, ["-f", "json", top], d)
+    if rng.chance(1, 3):
+        # the result written to a file named by -o (its extension selects the format) instead of -f to stdout
+        rc, out, err = core.cli(bklr, ["-o", "skel.json", top], d)
+        if rc == 0:
+            try:
+                out = open(os.path.join(d, "skel.json"), "rb").read()
+            except OSError:
+                out = b"missing output file"
+    else:
+        rc, out, err = core.cli(bklr, ["-f", "json", top], d)
     r["bklr_rc"], r["bklr_err"] = rc, err[-300:]
     r["bklr_out"] = None
     if rc == 0:
